@@ -881,7 +881,28 @@ class Gen:
         self.make_helpers()
         body = []
         n = self.r.randint(4, 12) if nstmts is None else nstmts
-        for _ in range(n):
+        # when the declarations allow deep places (a model inside a model, a list of models), make sure a mutable root exists early:
+        # otherwise writes through `v.child.x` / `xs[0].x` stay a once-in-a-hundred-cases event
+        deep = [m for m in self.models if any(isinstance(ft, tuple) and ft[0] == "model" for _, ft in m[1])]
+        if deep and self.on("place.seed_root", 0.7):
+            m = self.r.choice(deep)
+            name = self.fresh()
+            body.append(("let", "mut", name, None, self.e_model(m[0], 0)))
+            self.declare(name, ("model", m[0]), True)
+        elif self.models and "decl.list_of_models" not in self.avoid and self.on("place.seed_list_root", 0.25):
+            m = self.r.choice(self.models)
+            name = self.fresh()
+            ty = ("list", ("model", m[0]))
+            body.append(("let", "mut", name, None, self.e_of(ty, 0)))
+            self.declare(name, ty, True)
+            self.feat.add("decl.list_of_models")
+        seeded = len(body) > 0
+        for k in range(n):
+            if seeded and k in (1, 3) and self.r.random() < 0.6:
+                st = self.try_(lambda: self.field_set(aug=self.r.random() < 0.4))
+                if st:
+                    body += st
+                    continue
             body += self.stmt(0)
         self.decls.append({"kind": "func", "name": "case_%s" % self.cid, "params": [], "ret": "None", "body": body})
         return {"id": self.cid, "decls": self.decls, "features": set(self.feat), "entry": "case_%s" % self.cid}
